@@ -88,6 +88,7 @@ class Handshake(Job):
             except (core.Escape, core.Inconclusive, core._Abort, core.Counterexample):
                 raise
             except Exception as e:
+                core.check_leak(e)
                 exc = type(e).__name__
         return o, c, res, exc
 
@@ -357,7 +358,8 @@ class Contenders(Job):
                         ent["c"].dataReceived(chunk)
                     except (core.Escape, core.Inconclusive, core._Abort, core.Counterexample):
                         raise
-                    except Exception:
+                    except Exception as e:
+                        core.check_leak(e)
                         pass
                 elif kind == "lose":
                     ent = conns[i]
